@@ -734,6 +734,20 @@ pub fn yen_corpus() -> Vec<KCase> {
     // the first alternative is dearer but has only two edges (0 -> 1 -> 3 direct): once it is the
     // previous route the loop stops progressing, k = 3
     v.push(ycase(base_case(vec![(0, 1, 1.0), (1, 2, 1.0), (2, 3, 1.0), (1, 3, 5.0)], 4, 0, 3), 3, "yen-later-short-route"));
+    // a spur search stopped by a limit fails the query with the explicit `terminated` error (C10): the first
+    // search needs 4 expansions, the spur search from 1 needs 6, iteration limit 5
+    let mut b = base_case(
+        vec![
+            (0, 1, 1.0), (1, 2, 1.0), (2, 3, 1.0), (3, 4, 1.0),
+            (1, 5, 10.0), (5, 6, 1.0), (6, 7, 1.0), (7, 8, 1.0), (8, 9, 1.0), (9, 4, 1.0),
+            (2, 10, 20.0), (10, 4, 2.0),
+        ],
+        11,
+        0,
+        4,
+    );
+    b.term = Term::Iters(5);
+    v.push(ycase(b, 2, "yen-spur-search-limited"));
     // the C03 re-opening witness (A*, estimate inconsistent for the network) through Yen
     let mut c = ycase(stale_link_witness(false), 2, "yen-stale-link");
     c.bf_ok = false;
@@ -1181,6 +1195,9 @@ fn run_yen_child(ctx: &mut Ctx, idx: usize, kc: &KCase, stream: Stream) -> Vec<V
         Outcome::Ok(r) => {
             ctx.count("outcome_ok");
             ctx.count(&format!("routes_{}", r.routes.len().min(7)));
+            if kc.label == "yen-spur-search-limited" {
+                ctx.fail(idx, "yens/spur-limit-not-terminated", "the spur search from vertex 1 exceeds the iteration limit but the query returned Ok".into());
+            }
             if let Some(k) = k_eff {
                 oracle_ok(ctx, idx, kc, &b, r, k, reopened(&ex.scheds));
             }
@@ -1192,6 +1209,9 @@ fn run_yen_child(ctx: &mut Ctx, idx: usize, kc: &KCase, stream: Stream) -> Vec<V
             ctx.count(&format!("outcome_err_{}", k.split(' ').next().unwrap_or("")));
             if k.starts_with("panic") && !k.contains("termination-frequency-zero") {
                 ctx.fail(idx, "yens/panic", k.clone());
+            }
+            if kc.label == "yen-spur-search-limited" && k != "terminated iterations" {
+                ctx.fail(idx, "yens/spur-limit-not-terminated", format!("expected the explicit 'terminated iterations' error, got '{}'", k));
             }
             // (a limit hit by a spur search IS the explicit `terminated` error of the query, C10)
             if let (Outcome::Ok(_), Some(_), true) = (&plain.outcome, k_eff, inner_target(c).is_some() && reaches_algorithm(c) && !k.starts_with("terminated")) {
